@@ -296,14 +296,71 @@ def apiTrigger (sub : Sub) (sc : Script) (kd : Kinds) (cfg : Cfg) (qm qmax : Nat
   | .err e s' => .err e (s'.emit (.raised tag e))
   | .oof => .oof
 
-/-- the fuelled interpreter of commands. Only `trigger` is part of C07's histories; the other
-commands are not modelled for the async classes (answer `oof` = no answer). -/
+/-- `AsyncMachine._can_trigger` (`await model.may_<event>()` / `may_trigger`): for every transition of
+the event from the model's state whose destination is registered — prepare_event, the transition's
+prepare, all its conditions (gather); the first that passes answers True; an exception goes to the
+on_exception handlers when there are any (and the loop goes on), else it is raised. -/
+def mayLoop (sub : Sub) (sc : Script) (kd : Kinds) (cfg : Cfg) (x : Ctx) : List Trans → St → R Bool
+  | [], s => .ok false s
+  | t :: ts, s =>
+    if !destOk cfg t then mayLoop sub sc kd cfg x ts s else
+    let attempt : R Bool :=
+      (callbacks sub sc kd .prepareEvent x cfg.prepareEvent s).bind fun _ s1 =>
+      (callbacks sub sc kd .prepare x t.prepare s1).bind fun _ s2 =>
+        evalConds sub sc kd x t.conds s2
+    match attempt with
+    | .ok true s' => .ok true s'
+    | .ok false s' => mayLoop sub sc kd cfg x ts s'
+    | .err e s' =>
+      (match cfg.onException with
+        | [] => (.err e s' : R Unit)
+        | hs => callbacks sub sc kd .onException x hs s').bind fun _ s'' => mayLoop sub sc kd cfg x ts s''
+    | .oof => .oof
+
+/-- `state = self.get_model_state(model)`; `for trigger_name in self.get_triggers(state)` keeps the
+events that have an entry for the state; the probe itself writes nothing (no queue, no state, and no
+entry in `Event.transitions`: a later trigger from a state without transitions still raises). -/
+def canTrigger (sub : Sub) (sc : Script) (kd : Kinds) (cfg : Cfg) (m ev tag : Nat) (s : St) : R Bool :=
+  if (alookup m s.mstate).isNone then .err .attributeError s else
+  let src := s.stateOf m
+  match cfg.state? src with
+  | none => .err .valueError s
+  | some _ =>
+    match cfg.event? ev with
+    | none => .ok false s
+    | some ts =>
+      match candidates ts src with
+      | none => .ok false s
+      | some cs => mayLoop sub sc kd cfg ⟨m, tag⟩ cs s
+
+/-- one awaited `may_` poll as issued by the harness or a scripted callback -/
+def apiMay (sub : Sub) (sc : Script) (kd : Kinds) (cfg : Cfg) (m ev : Nat) (s : St) : R Bool :=
+  let tag := s.nextTag
+  let s1 := ({ s with nextTag := tag + 1 }).emit (.api 1 tag m ev)
+  match canTrigger sub sc kd cfg m ev tag s1 with
+  | .ok b s' => .ok b (s'.emit (.ret tag b))
+  | .err e s' => .err e (s'.emit (.raised tag e))
+  | .oof => .oof
+
+/-- the fuelled interpreter of commands, triggers only (the other commands answer `oof` = no answer);
+kept for the properties that reason about trigger-only programs (C05 async queues, C09) -/
 def runCmd (sc : Script) (kd : Kinds) (cfg : Cfg) (qm qmax : Nat) : Nat → Cmd → St → R Unit
   | 0, _, _ => .oof
   | f + 1, c, s =>
     let sub := runCmd sc kd cfg qm qmax f
     match c with
     | .trigger m ev => (apiTrigger sub sc kd cfg qm qmax m ev s).map fun _ => ()
+    | _ => .oof
+
+/-- the fuelled interpreter of C07's histories: awaited triggers AND awaited `may_` polls, issued by the
+caller or by callbacks (the remaining commands are not modelled for the async classes: `oof`) -/
+def runCmdP (sc : Script) (kd : Kinds) (cfg : Cfg) (qm qmax : Nat) : Nat → Cmd → St → R Unit
+  | 0, _, _ => .oof
+  | f + 1, c, s =>
+    let sub := runCmdP sc kd cfg qm qmax f
+    match c with
+    | .trigger m ev => (apiTrigger sub sc kd cfg qm qmax m ev s).map fun _ => ()
+    | .may m ev => (apiMay sub sc kd cfg m ev s).map fun _ => ()
     | _ => .oof
 
 /-- a top-level history: each trigger is awaited before the next is issued; an exception reaching the
@@ -314,6 +371,15 @@ def runHistory (sc : Script) (kd : Kinds) (cfg : Cfg) (qm qmax fuel : Nat) : Lis
     match runCmd sc kd cfg qm qmax fuel c s with
     | .ok _ s' => runHistory sc kd cfg qm qmax fuel cs s'
     | .err _ s' => runHistory sc kd cfg qm qmax fuel cs s'
+    | .oof => none
+
+/-- a top-level history of awaited triggers and `may_` polls -/
+def runHistoryP (sc : Script) (kd : Kinds) (cfg : Cfg) (qm qmax fuel : Nat) : List Cmd → St → Option St
+  | [], s => some s
+  | c :: cs, s =>
+    match runCmdP sc kd cfg qm qmax fuel c s with
+    | .ok _ s' => runHistoryP sc kd cfg qm qmax fuel cs s'
+    | .err _ s' => runHistoryP sc kd cfg qm qmax fuel cs s'
     | .oof => none
 
 end Async
